@@ -742,16 +742,18 @@ bool template_t::is_invariant() const
 std::ostream& chan_priority_t::print(std::ostream& os) const
 {
     os << "chan priority ";
-    auto head_s = head.str();
-    if (head_s.empty())
-        head_s = "default";
-
-    os << head_s;
+    if (head.empty())  // the default priority level has no expression
+        os << "default";
+    else
+        head.print(os);
     for (const auto& [ch, expr] : tail) {
         if (ch == '<')
             os << ' ';
         os << ch << ' ';
-        expr.print(os);
+        if (expr.empty())  // the default priority level has no expression
+            os << "default";
+        else
+            expr.print(os);
     }
     return os;
 }
